@@ -53,13 +53,15 @@ type Sim struct {
 	timed evHeap
 	seq   uint64
 
-	mu      sync.Mutex
-	parkedG []*parked
-	parkOrd int
-	Armed   map[string]bool // yield sites armed for this run
-	armAll  bool
-	probes  map[string]int
-	parks   map[string]int
+	mu       sync.Mutex
+	parkedG  []*parked
+	parkOrd  int
+	Armed    map[string]bool // exploration yield sites armed for this run
+	Gates    bool            // "gate:" sites (cross-goroutine hand-offs) always park
+	armAll   bool
+	tickUsed time.Duration
+	probes   map[string]int
+	parks    map[string]int
 
 	Step     int
 	MaxSteps int
@@ -89,7 +91,7 @@ type Violation struct {
 
 func NewSim(ch *Choices) *Sim {
 	s := &Sim{Ch: ch, wake: make(chan struct{}, 1), Armed: map[string]bool{}, probes: map[string]int{}, parks: map[string]int{},
-		Faults: map[string]int{}, MaxSteps: 20000, Horizon: 5 * time.Minute, logKeep: 400}
+		Faults: map[string]int{}, Gates: true, MaxSteps: 20000, Horizon: 5 * time.Minute, logKeep: 400}
 	s.start = time.Now()
 	return s
 }
@@ -191,7 +193,7 @@ func (s *Sim) Violate(prop, class, format string, a ...any) {
 // Yield is installed as verifhook.YieldFunc. Only armed sites park.
 func (s *Sim) Yield(site string, id uint64) {
 	s.mu.Lock()
-	if s.Stopped != "" || !(s.armAll || s.Armed[site]) {
+	if s.Stopped != "" || !(s.armAll || s.Armed[site] || (s.Gates && len(site) > 5 && site[:5] == "gate:")) {
 		s.mu.Unlock()
 		return
 	}
@@ -319,7 +321,7 @@ func (s *Sim) Run(done func() bool) {
 		// With goroutines parked at yield points, letting time pass is itself an
 		// option (it lets timers of the system fire and reach their own gates).
 		tick := -1
-		if nParked > 0 {
+		if nParked > 0 && s.tickUsed < time.Second {
 			tick = len(cs)
 		}
 		n := len(cs)
@@ -330,6 +332,7 @@ func (s *Sim) Run(done func() bool) {
 		s.Step++
 		if i == tick {
 			d := []time.Duration{time.Millisecond, 10 * time.Millisecond, 100 * time.Millisecond}[s.Ch.Pick("sched", "tick", 3)]
+			s.tickUsed += d
 			s.Logf("tick %v", d)
 			s.sigAdd("tick")
 			time.Sleep(d)
